@@ -100,9 +100,19 @@ def _worker(prop_name, tier, seed, shard, attempt, n, out_path, cur_path, done_p
         out = open(out_path, "a", buffering=1)
         state = {"fail": {}, "last_fail": None, "harness": None, "samples": []}
 
+        import random as _random
+
         @st.composite
         def cases(draw):
-            rnd = draw(st.randoms(use_true_random=False))
+            # Search phase: Hypothesis draws one 64-bit seed per case and the generator runs on a
+            # random.Random(seed).  (Measured: with st.randoms() two thirds of the generated cases were
+            # duplicates and trees were half the size, because Hypothesis keeps re-trying near-identical
+            # choice sequences.)  Shrink phase (thorough tier): st.randoms(), so that Hypothesis can shrink
+            # the individual choices of the generator structurally.
+            if shrink_sig is None and getattr(prop, "RNG", "seed") == "seed":
+                rnd = _random.Random(draw(st.integers(min_value=0, max_value=2 ** 64 - 1)))
+            else:
+                rnd = draw(st.randoms(use_true_random=False))
             return prop.generate(rnd, tier)
 
         def body(case):
